@@ -1083,7 +1083,8 @@ def compare_batch(ctx, r, outs):
             if not fa or not fb:
                 if fa != fb:
                     ctx.fail('ray %d is finite alone iff finite in the batch (surface %d)' % (i, j),
-                             {**case, 'ray': i}, {'batch': a.tolist(), 'alone': b.tolist()})
+                             {**case, 'ray': i}, {'batch': a.tolist(), 'alone': b.tolist()},
+                             finding_key=wander_key(r, ra, j))
                 break
             dpos = float(np.max(np.abs(a[:3] - b[:3])))
             ddir = float(np.max(np.abs(a[3:] - b[3:])))
@@ -1094,8 +1095,38 @@ def compare_batch(ctx, r, outs):
             if max(dpos, ddir, dopd) > bound:
                 ctx.fail('Newton-Raphson geometries: ray %d alone and in a batch agree within the surface '
                          'tolerance (surface %d)' % (i, j), {**case, 'ray': i},
-                         {'dpos': dpos, 'ddir': ddir, 'dopd': dopd}, {'bound': bound, 'tol': tol})
+                         {'dpos': dpos, 'ddir': ddir, 'dopd': dopd}, {'bound': bound, 'tol': tol},
+                         finding_key=wander_key(r, ra, j))
                 break
+
+
+def wander_key(r, ra, j):
+    """finding F22c (= F22b seen from C13): the code's iteration does not contract for this ray - run for max_iter
+    sweeps (what the batch-wide loop forces as soon as any other ray needs them) it is still outside the tolerance
+    or has left the sag domain, while alone it stopped at the first sweep whose |dz| happened to be below `tol`.
+    Decided with the independent replay of the iteration (c02.nr_replay), not with the implementation's own values."""
+    from . import c02, specgeom
+    try:
+        g = r['geom_objs'][j]
+        if type(g).__name__ in ('Plane', 'StandardGeometry'):
+            return None
+        P0 = np.array([ra[f][j - 1, 0] for f in ('x', 'y', 'z')], dtype=float)
+        D0 = np.array([ra[f][j - 1, 0] for f in ('L', 'M', 'N')], dtype=float)
+        if not (np.all(np.isfinite(P0)) and np.all(np.isfinite(D0))):
+            return None
+        loc0 = specgeom.to_local(g.cs, P0)
+        dloc = specgeom.to_local(g.cs, P0 + D0) - loc0
+        if abs(dloc[2]) < 1e-12:
+            return 'nr-wandering-batch-dependence'
+        q = c02.nr_replay(g, loc0, dloc)
+        if q is None:
+            return 'nr-wandering-batch-dependence'
+        zs, _ = specgeom.shape(g, float(q[0]), float(q[1]))
+        if zs is None or abs(q[2] - zs) >= float(g.tol):
+            return 'nr-wandering-batch-dependence'
+    except Exception:  # noqa
+        return None
+    return None
 
 
 # ------------------------------------------------------------------------------------ driver of the check
